@@ -25,6 +25,7 @@ type loopInfo struct {
 	modHeaps []string
 	modTop   bool
 	pcPre    Term
+	frameWm  Term // watermark below which the loop frame protects objects (pre.wm, or the function's entry watermark for "modifies fresh")
 }
 
 // rangeIndexAlloc returns the hidden index variable of a "for range" loop: the
@@ -247,7 +248,33 @@ func (fr *Frame) loopWrites(li *loopInfo) (cells map[ssa.Value]bool, heaps map[s
 				top = true
 			case *ssa.Go:
 				top = true
+			case *ssa.Send:
+				fr.chanGhostWrites(heaps, "chsends", "chlast")
+			case *ssa.Select:
+				fr.chanGhostWrites(heaps, "chsends", "chlast", "chrecvs", "chrecvsclosed", "chlastrecv")
+			case *ssa.UnOp:
+				if in.Op == token.ARROW {
+					fr.chanGhostWrites(heaps, "chrecvs", "chrecvsclosed", "chlastrecv")
+				}
 			case *ssa.Call:
+				if b, ok := in.Call.Value.(*ssa.Builtin); ok && b.Name() == "close" {
+					fr.chanGhostWrites(heaps, "chcloses")
+				}
+				// names bound by "at call ... let" clauses at this call
+				if fr.top && fr.contract != nil {
+					cn := ""
+					for _, cs := range fr.contract.CallSites {
+						if cs.Let == "" {
+							continue
+						}
+						if cn == "" {
+							cn = fr.calleeNameOf(&in.Call)
+						}
+						if cn != "" && calleeMatches(cs.Callee, cn) {
+							cells[letKey{cs.Let}] = true
+						}
+					}
+				}
 				if fr.top && fr.contract != nil {
 					// ghosts assigned by "at call ... set" clauses of the
 					// verified function change in the loops that contain a
@@ -294,6 +321,16 @@ func (fr *Frame) loopWrites(li *loopInfo) (cells map[ssa.Value]bool, heaps map[s
 		}
 	}
 	return
+}
+
+// chanGhostWrites adds the declared channel-operation ghost maps to a loop's
+// write set.
+func (fr *Frame) chanGhostWrites(heaps map[string]bool, names ...string) {
+	for _, n := range names {
+		if g := fr.vc.specs.ghost(n); g != nil && g.IsMap {
+			heaps[g.heapName()] = true
+		}
+	}
 }
 
 // staticCalleeName names the callee of a call the way callInner does.
@@ -442,6 +479,13 @@ func (fr *Frame) enterLoop(li *loopInfo, pre *State, pc Term) *State {
 	}
 	cells, heaps, top, allocs := fr.loopWrites(li)
 	st := pre.clone()
+	// objects allocated by earlier iterations lie above the watermark the
+	// loop was entered with: advance it before the loop-carried variables are
+	// given their arbitrary loop-head values (their type facts bound
+	// references by the current watermark)
+	if allocs || top {
+		vc.bumpWatermark(st)
+	}
 	var ck []ssa.Value
 	for c := range cells {
 		ck = append(ck, c)
@@ -474,9 +518,6 @@ func (fr *Frame) enterLoop(li *loopInfo, pre *State, pc Term) *State {
 			st.cells[c] = vc.fresh("loop:"+c.Name(), pre.cells[c].Sort)
 		}
 	}
-	if allocs || top {
-		vc.bumpWatermark(st)
-	}
 	li.modTop = top
 	if top {
 		vc.havocAllHeaps(st)
@@ -488,6 +529,10 @@ func (fr *Frame) enterLoop(li *loopInfo, pre *State, pc Term) *State {
 		for _, h := range hn {
 			if vc.specs.isPrivateHeap(h) || vc.specs.isImmutableHeap(h) || vc.specs.isSetGhostHeap(h) {
 				vc.havocHeapKeepOldBelow(st, pre, h, pc, fr.ownWatermark(pre))
+			} else if isChanGhostHeap(h) {
+				// channel operations executed by the loop body itself
+				vc.heap(st, h, vc.specs.ghost(strings.TrimSuffix(strings.TrimPrefix(h, "|GH:"), "|")).sort())
+				vc.havocHeap(st, h)
 			}
 		}
 	} else {
@@ -507,15 +552,21 @@ func (fr *Frame) enterLoop(li *loopInfo, pre *State, pc Term) *State {
 				}
 			} else {
 				li.regions = regs
+				li.frameWm = pre.wm
+				if li.spec.ModFresh {
+					// objects allocated since the function was entered may
+					// change as well: the frame protects what existed at entry
+					li.frameWm = fr.entry.wm
+				}
 				for _, h := range hn {
 					if vc.heapInfo[h] == nil {
 						continue
 					}
 					vc.havocHeap(st, h)
 					oldH := vc.heap(pre, h, vc.heapInfo[h].Sort)
-					vc.assume(pc, vc.frameFormula(st.heaps[h], oldH, h, regs, pre.wm))
+					vc.assume(pc, vc.frameFormula(st.heaps[h], oldH, h, regs, li.frameWm))
 					if excl, ok := simpleExclusions(regs, h); ok && hasPrefix(vc.heapInfo[h].Sort, "(Array ") {
-						vc.recordFrame(st.heaps[h], oldH, pre.wm, pc, excl)
+						vc.recordFrame(st.heaps[h], oldH, li.frameWm, pc, excl)
 					}
 				}
 			}
@@ -568,7 +619,11 @@ func (fr *Frame) backEdge(li *loopInfo, st *State, guard Term) {
 			if cur.S == was.S {
 				continue
 			}
-			vc.oblige("loop-frame", "frame", site+":"+heapShort(h), guard, vc.frameFormula(cur, was, h, li.regions, li.pre.wm), "loop writes only its declared locations in "+h)
+			fwm := li.pre.wm
+			if li.frameWm.S != "" {
+				fwm = li.frameWm
+			}
+			vc.oblige("loop-frame", "frame", site+":"+heapShort(h), guard, vc.frameFormula(cur, was, h, li.regions, fwm), "loop writes only its declared locations in "+h)
 		}
 	}
 }
